@@ -147,4 +147,21 @@ def run(ctx, model):
                 outs = B.run_thunk(model, lambda it, ci=ci, o_spec=o_spec, mk_e=mk_e: it.construct(ci, [B.mk(model, o_spec), mk_e()]))
                 want = ("same", o_spec[2]) if meth in B.POSITIVE else ("raise", NEG_EXC)
                 judge(init, cname, outs, want, f"{cname}({o_spec[0]}, {lab})")
+    # 5. every operand a plain string (the word-list form): the empty string is as neutral as Pregex() - the call emits
+    #    exactly what the same call with Pregex(s) operands emits (nothing replaced: classifier interpreted)
+    P = model.pregex
+    for cname in ("Concat", "Either", "Enclose"):
+        ci = model.cls(OPS, cname)
+        init = ci.find_method("__init__")
+        for strs in (["ab", ""], ["", "ab"], ["ab", "", "cd"], ["", ""], ["ab", "cd", ""], ["", "ab", "", "c.d"], ["a|b", ""]):
+            as_str = B.run_thunk(model, lambda it, ci=ci, strs=strs: it.construct(ci, list(strs)), real_classifier=True, fuel_factor=200)
+            as_pre = B.run_thunk(model, lambda it, ci=ci, strs=strs: it.construct(ci, [it.construct(P, [x]) for x in strs]), real_classifier=True, fuel_factor=200)
+            d = lambda outs: sorted((o.text if o.kind == "return" else "!" + o.exc.name) for o in outs)
+            inp = f"{cname}({', '.join(repr(x) for x in strs)})"
+            cnt += 1
+            ctx.instance(rule, key=("all strings", inp), sample=f"{inp} -> {d(as_str)[:1]}")
+            if d(as_str) != d(as_pre):
+                ctx.violation(rule, init.relpath, init.short, f"{cname}: all operands plain strings",
+                              f"{cname}: an empty string among plain-string operands is not neutral (the call differs from the same call with Pregex operands)",
+                              init.node.lineno, inp=inp, detail=f"strings: {d(as_str)[:2]}; Pregex operands: {d(as_pre)[:2]}")
     ctx.floor(rule, cnt, 400, "empty-operand cases")
